@@ -102,6 +102,13 @@ def labelled():
     for qy in ("name from 'a[' regexp", "name from 'x/b[' rx", "name from ., '*{' regexp", "name from 'a[/b' regexp where size > 1",
                "count(*) from 'a[' rx", "name from '?(' regexp order by 1 limit 1", "name from 'a[' depth 1 rx"):
         out.append(([qy], 'bad-regex', 'diag'))
+    # a bad literal on the side of AND / OR that the evaluation skips for every entry is a bad literal all the same
+    never, always = 'size > 99999999999', 'size >= 0'
+    for bad, label in (("name rx '('", 'bad-regex'), ("name notrx '[a'", 'bad-regex'), ("modified = 'garbage'", 'bad-date'), ("accessed > '2021-13-45'", 'bad-date'),
+                       ('is_dir = maybe', 'bad-boolean'), ('2 = is_file', 'bad-boolean'), ("'garbage' < modified", 'bad-date')):
+        for qy in ('name from . where %s and %s' % (never, bad), 'name from . where %s or %s' % (always, bad), 'name from . where (%s and (%s or %s)) or %s' % (never, always, bad, always),
+                   'name from . where not (%s or %s)' % (always, bad), 'name from /work/ks/nonexistent where %s' % bad, 'name from . where %s and %s limit 1' % (bad, never)):
+            out.append(([qy], label, 'diag'))
     for qy in ('name from . where modified > garbage', "name from . where modified = '2021-13-45'", "name from . where modified = '2021-01-01 25:00'",
                "name from . where modified = '2021-02-30'", "name from . where modified > '2021-01-01 10:61'",
                "name from . where modified < '2021-01-01 10:10:99'", 'name from . where modified = x', "name from . where modified = '+x'",
